@@ -117,6 +117,8 @@ def _run_c37(ctx):
     parts_rrdp.append(p)
     ctx.extra["schedules_exported"] = n
     rs, rr = ctx.path("rsync.ndjson"), ctx.path("rrdp.ndjson")
+    # the counterexample schedules first: a violation is then recorded with a schedule that was followed exactly
+    parts_rsync.sort(key=lambda x: 0 if os.path.basename(x).startswith("gas") else 1)
     _cat(rs, parts_rsync)
     _cat(rr, parts_rrdp)
 
